@@ -348,7 +348,8 @@ def v_wait_payment(C, rep, pfx):
         nones = [(k, e, s, w) for k, e, s, w in alts_ if k == "Ok" and e is not None and e[0] == "agg" and e[2] == "None"]
         rep.anchor(rid, "Ok(None) exit", len(nones), 1, fn=fn)
         rep.anchor(rid, "StreamExt::next on the wait set", len(NX), 1, fn=fn)
-        rep.anchor(rid, "waitsendpay call", len(WS), 1, fn=fn)
+        if WS or not NX:
+            rep.anchor(rid, "waitsendpay call", len(WS), 1, fn=fn)
         for k, e, s, w in nones:
             g = False
             for fe, truth, c in enum_facts(b, X, s):
@@ -399,6 +400,47 @@ def v_wait_payment(C, rep, pfx):
                     to = d.get("timeout")
                     okt = to is not None and to[0] == "agg" and to[2] == "None"
                     rep.ob(rid, okt, fn, "waitsendpay has no timeout", where=ws.loc, how="None", detail="" if okt else "waitsendpay is given a timeout: it can return before the part resolved", nontrivial=False)
+        if NX and not WS:
+            # the futures are made by an iterator chain: `parts.into_iter().map(|p| rpc.waitsendpay(..)).collect()`
+            nx = NX[0]
+            sx = strip(X.operand(b, nx.args[0]))
+            found = None
+            for x in walk(sx):
+                if x[0] == "call" and x[1] == "std::iter::Iterator::collect" and x[2] and x[2][0][0] == "call" and x[2][0][1] == "std::iter::Iterator::map" and len(x[2][0][2]) == 2:
+                    it, cl = x[2][0][2]
+                    for y in alts(cl):
+                        if y[0] == "agg" and y[1].startswith("closure:"):
+                            cb = F.by_cdef.get(y[1][len("closure:"):])
+                            if cb is not None:
+                                ws2 = [c for c in cb.calls if c.is_trait_method("rpc::ClnRpc", "waitsendpay")]
+                                if ws2:
+                                    found = (it, cb, ws2[0])
+            rep.anchor(rid, "waitsendpay call", 1 if found else 0, fn=fn)
+            if found:
+                it, cb, ws = found
+                adapt = [x[1] for x in walk(it) if x[0] == "call" and x[1].startswith("std::iter::Iterator::") and x[1].split("::")[-1] in ("filter", "take", "skip", "step_by", "take_while", "skip_while", "filter_map", "rev", "nth")]
+                okf = not adapt and any(x[0] == "field" and x[1] == "payments" for x in walk(it)) and "PENDING" in _listing_status(it)
+                rep.ob(rid, okf, fn, "every listed pending part is visited", where=nx.loc, how=show(it)[:80], detail="" if okf else "pending parts are iterated through %s: some parts are not waited for" % (adapt or show(it)[:80]))
+                rets = [r for r in cb.returns()]
+                okr = all(cb.dominates(ws.bb, r) for r in rets) and all(any(z[0] == "call" and z[3][1] == ws.bb for z in walk(a0)) for a0 in alts(strip(X.local(cb, 0))))
+                rep.ob(rid, okr, fn, "every visited part yields its waitsendpay future", where=ws.loc, how="the closure returns the waitsendpay call on every path",
+                       detail="" if okr else "the mapping closure does not return a waitsendpay future for every part")
+                we = strip(X.operand(cb, ws.args[1]))
+                for a in alts(we):
+                    if a[0] == "agg" and a[1].endswith("WaitsendpayRequest"):
+                        d = dict(a[3])
+
+                    def from_elem(e, fld):
+                        return e is not None and any(z[0] == "field" and z[1] == fld and any(w[0] == "param" and w[1] == cb.cdef and w[2] == 2 for w in walk(z)) for z in walk(e))
+                    if a[0] == "agg" and a[1].endswith("WaitsendpayRequest"):
+                        okh = d.get("payment_hash") is not None and all(z[0] in ("param", "upvar") or (z[0] == "field") for z in alts(d["payment_hash"])) and any(w[0] == "param" for w in walk(d["payment_hash"]))
+                        okg = from_elem(d.get("groupid"), "groupid")
+                        okpa = from_elem(d.get("partid"), "partid")
+                        rep.ob(rid, okh and okg and okpa, fn, "waitsendpay names the listed part (hash, groupid, partid)", where=ws.loc, how="from the iterated element",
+                               detail="" if okh and okg and okpa else "waitsendpay request is %s" % show(a)[:140])
+                        to = d.get("timeout")
+                        okt = to is not None and to[0] == "agg" and to[2] == "None"
+                        rep.ob(rid, okt, fn, "waitsendpay has no timeout", where=ws.loc, how="None", detail="" if okt else "waitsendpay is given a timeout: it can return before the part resolved", nontrivial=False)
         # ---- V3
         rid = pfx + "-V3"
         rep.rule(rid, "per-part error codes 202/203/204/208/209 continue the wait; every other error returns Err; no error maps to Ok(None)")
